@@ -220,6 +220,7 @@ class Session:
                 # environment like a device fault; the observing subscriber above has already seen the document)
                 def failing_subscriber(name, doc):
                     if len(self.docs) - 1 == cbfail:
+                        self.timeline.append(("cbfail", cbfail, name))
                         raise SubscriberError(f"subscriber failed on document #{cbfail} ({name})")
 
                 RE.subscribe(failing_subscriber)
